@@ -118,8 +118,8 @@ META = {
         "design_ref": "DESIGN.md §4 C10",
     },
     "C11": {
-        "text": "Counting invariant (running size = number of workers that have not returned from their loop) proved initial and preserved by every pool operation (C11_exact_partial), growth bounded by the maximum size (C11_bounded), an idle worker with an empty queue leaves at once (C11_idle_worker_exits) and a stop with nothing left succeeds immediately (C11_stop_prompt). Several pools of one process: for every history of worker creations and exits, wherever each worker happens to run when it exits, every pool's count equals its own live workers (C11_multi_pool_exact), all zero once every worker has left (C11_multi_pool_quiescent), an idle worker leaves wherever it runs (C11_multi_idle_worker_leaves); the pre-fix rule refuted (C11_old_foreign_exit_counterexample, C11_old_idle_worker_spins). Partial: a worker dropped by a cancel while parked never returns, so the count stays up - recorded known finding. Tie: generated submit/pass/advance/cancel/wait/max/stop histories on a real pool, running size and state compared after every operation; `mpool`: 1-4 real pools with timed passes under the virtual clock so that started workers are resumed and finished by other pools, running sizes judged after every pass and at quiescence.",
-        "note": "Trusted: Lean kernel; pool model (min_size 0, keep_alive 0, one thread); virtual clock. Known finding: [running-leak-after-parked-cancel].",
+        "text": "Counting invariant (running size = number of workers that have not returned from their loop) proved initial and preserved by every pool operation (C11_exact), including the drop of a parked worker on a cancel request (C11_parked_cancel_slot), growth bounded by the maximum size (C11_bounded), an idle worker with an empty queue leaves at once (C11_idle_worker_exits) and a stop with nothing left succeeds immediately (C11_stop_prompt). Several pools of one process: for every history of worker creations and exits, wherever each worker happens to run when it exits, every pool's count equals its own live workers (C11_multi_pool_exact), all zero once every worker has left (C11_multi_pool_quiescent), an idle worker leaves wherever it runs (C11_multi_idle_worker_leaves); the pre-fix rule refuted (C11_old_foreign_exit_counterexample, C11_old_idle_worker_spins). Tie: generated submit/pass/advance/cancel/wait/max/stop histories on a real pool, running size and state compared after every operation; `mpool`: 1-4 real pools with timed passes under the virtual clock so that started workers are resumed and finished by other pools, running sizes judged after every pass and at quiescence.",
+        "note": "Trusted: Lean kernel; pool model (min_size 0, keep_alive 0, one thread); virtual clock.",
         "design_ref": "DESIGN.md §4 C11",
     },
     "C12": {
@@ -138,7 +138,7 @@ META = {
         "design_ref": "DESIGN.md §4 C02",
     },
     "C13": {
-        "text": "Theorems: a task cancelled while queued is skipped by the worker that takes it - nothing starts, an error result is stored and its waiter registration removed (C13_before_start); requesting a cancel changes nothing but the cancel sets (C13_cancel_frame); skipping changes only that task's result and waiter (C13_skip_frame). Tie: as C11; tasks log when their body starts; `co` (the coroutines that run the tasks): a cancel issued for one coroutine never ends another one. Known finding: cancelling a task that is suspended inside its worker leaves its waiter unsettled (and the worker count up).",
+        "text": "Theorems: a task cancelled while queued is skipped by the worker that takes it - nothing starts, an error result is stored and its waiter registration removed (C13_before_start); requesting a cancel changes nothing but the cancel sets (C13_cancel_frame); skipping changes only that task's result and waiter (C13_skip_frame). Tie: as C11; tasks log when their body starts; `co` (the coroutines that run the tasks): a cancel issued for one coroutine never ends another one. A cancel that finds the task suspended inside its worker settles it when the scheduler drops that worker: result `cancelled` stored, waiter woken (C13_parked_cancel_settles, C13_parked_cancel_unwanted).",
         "note": "Trusted: as C11. The running-task path (signal to the thread that is executing the coroutine, lookup/delivery race) is not exercised: partial.",
         "design_ref": "DESIGN.md §4 C13",
     },
